@@ -284,6 +284,12 @@ func (s *Server[StateT]) handleWriteFile(ctx *Context[StateT]) error {
 
 	written, err := s.Handler.HandleWriteFile(ctx, data)
 	if err != nil {
+		// the announced payload has to be consumed even when it is not stored,
+		// otherwise it would be parsed as the next commands
+		if _, err = io.Copy(io.Discard, data); err != nil {
+			return fmt.Errorf("discard file data failed: %w", err)
+		}
+
 		return ctx.wr.SendWriteFileError()
 	}
 
